@@ -42,7 +42,7 @@ EXPECTED_PROBES = ["memo_hit", "memo_equal_distinct_key", "after_flood", "after_
 def plan(tier):
     if tier == "quick":
         return {"runs": 20000, "chunk": 200, "wall_cap": 150}
-    return {"runs": 1200000, "chunk": 1000, "wall_cap": 3000}
+    return {"runs": 700000, "chunk": 1000, "wall_cap": 900}
 
 
 def prepare(tier):  # pylint: disable=unused-argument
